@@ -278,13 +278,16 @@ def giveup_faults():
     out): re-executed once per DELSA request with an error reply and once with the netlink socket failing.  One sweep
     later at the latest, nothing of the IKE_SA is left in the kernel."""
     out, n = [], 0
-    for config in ('match', 'v6-outer'):
-        for extra in (0, 1):
+    for config in ('match', 'v6-outer', 'esp+ah'):
+        for extra in (0, 1) if config != 'esp+ah' else (1, 2):
             for kind in ('dpd', 'rekey_ike', 'soft'):
                 w = C.build(dict(config=config, budget=dict(trig=0, fault=0)))
                 if extra:
-                    w.step(('acquire', 'A', 0, 0))
+                    # a second CHILD_SA (with 'esp+ah': of the other protocol, asked for by either end)
+                    w.step(('acquire', 'A', 0, 0) if config != 'esp+ah' else ('acquire', 'AB'[extra - 1], 0, 1))
                     w.deliver_all()
+                    if len(w.endpoints['A'].kernel.sad) != 4:
+                        raise HarnessError('second CHILD_SA not installed')
                 w.step(('crash', 'B'))
                 a = w.endpoints['A']
                 if kind == 'soft':
@@ -309,7 +312,14 @@ def giveup_faults():
                 dels = [j for j, r in enumerate(w.endpoints['A'].kernel.log[len(pre.endpoints['A'].kernel.log):])
                         if r[1] and r[1]['type'] == K.XFRM_MSG_DELSA]
                 if w.endpoints['A'].kernel.sad or not dels:
-                    raise HarnessError('give-up step did not empty the SAD (%d left, %d DELSA)' % (len(w.endpoints['A'].kernel.sad), len(dels)))
+                    n += 1
+                    out.append(('M-sad', 'giveup:left=%d' % len(w.endpoints['A'].kernel.sad),
+                                'giveup:%s:%s:children=%d: the IKE_SA was given up (peer gone, %s outstanding) and %d SAs are still in '
+                                'the kernel (%d DELSA requests were made: %s)' % (
+                                    config, kind, 1 + extra, kind, len(w.endpoints['A'].kernel.sad), len(dels),
+                                    [(r[1]['proto'], r[2]) for r in w.endpoints['A'].kernel.log[len(pre.endpoints['A'].kernel.log):]
+                                     if r[1] and r[1]['type'] == K.XFRM_MSG_DELSA]), 'giveup:%s:%s:%d' % (config, kind, extra)))
+                    continue
                 dl = P.next_retransmit_deadline(pre)
                 for j in dels:
                     for how in ('reply-ENOMEM', 'socket-ENOBUFS'):
